@@ -1,5 +1,5 @@
 import CentrifugeVerif.Model.ControlUnsub
-import CentrifugeVerif.Props.C27
+import CentrifugeVerif.Proofs.ControlCodec
 /-!
 Helper lemmas for C28 (`Props/C28.lean`).
 -/
@@ -13,7 +13,7 @@ def ConnWF (c : Conn) : Prop := (c.subs.map (·.ch)).Nodup ∧ "" ∉ c.subs.map
 /-- the hub call a remote node makes is the hub call the calling node makes (C27 for unsubscribe) -/
 theorem remote_eq_local (u ch : String) (o : GUnsubscribeOptions) :
     remoteUnsubscribe (encodeUnsubscribe u ch o) = localUnsubscribe u ch o := by
-  simpa using control_roundtrip_unsubscribe u ch o
+  simpa using unsubscribe_roundtrip u ch o
 
 theorem flatMap_congr' {α β : Type} {l : List α} {f g : α → List β} (h : ∀ a ∈ l, f a = g a) :
     l.flatMap f = l.flatMap g := by
